@@ -85,6 +85,8 @@ func stressMkQuery0(r *gen.R, o *stressOpts, ups []string, worker, seq int) *str
 		kind = "rc9"
 	case x == 3 && up == "udp" && r.P(0.3):
 		kind = "half" // the datagram is cut in the middle while its header still announces every record
+	case x == 4 && r.P(0.5):
+		kind = "rd0" // RD=0: not supported, answered NOTIMP from the query message itself
 	}
 	delay := 0
 	if o.MaxDelayMs > 0 && r.P(0.7) {
@@ -106,7 +108,11 @@ func stressMkQuery0(r *gen.R, o *stressOpts, ups []string, worker, seq int) *str
 		qc = dns.ClassCHAOS
 	}
 	id := uint16(r.Intn(65536))
-	return &stressQ{wire: mkQuery(id, name, qt, qc, r.P(0.4)), q: dns.Question{Name: name, Qtype: qt, Qclass: qc}, tag: up, id: id, kind: kind}
+	wire := mkQuery(id, name, qt, qc, r.P(0.4))
+	if kind == "rd0" {
+		wire[2] &^= 0x01
+	}
+	return &stressQ{wire: wire, q: dns.Question{Name: name, Qtype: qt, Qclass: qc}, tag: up, id: id, kind: kind}
 }
 
 func runStress(c *Ctx, o stressOpts) *stressResult {
@@ -158,6 +164,11 @@ func runStress(c *Ctx, o stressOpts) *stressResult {
 			return
 		}
 		switch sq.kind {
+		case "rd0":
+			if m.Rcode != dns.RcodeNotImplemented || len(m.Answer)+len(m.Ns)+len(noOpt(m.Extra)) != 0 {
+				viol("mixed-up-answer:"+listener, fmt.Sprintf("%s: NOTIMP without records expected for a query with RD=0, got rcode %d with %d/%d/%d records", listener, m.Rcode, len(m.Answer), len(m.Ns), len(m.Extra)), cs)
+			}
+			return
 		case "half":
 			// nothing decodable was sent for this query: whatever the response is made of, it is not
 			// the upstream's answer to it
